@@ -55,6 +55,9 @@ CLAIMED['C33'] = ("decrypt(key, encrypt(key, d)) == d for every plain text of 0.
 CLAIMED['C36'] = ("metamorphic check of the real GetFingerprint: every variant of a base statement that changes only a number literal (1..3 symbolic digits), a string literal (0..2 symbolic bytes, either quote, escaped quotes), one gap's whitespace (1..2 symbolic whitespace bytes), the letter case of a keyword, or adds one block comment (0..2 symbolic bytes, spaced or glued) has the base fingerprint; IN lists of 1..4 values collapse to the 1-value fingerprint; mutants (other table, column, operator, extra column) get another fingerprint",
     "one base statement shape plus IN lists (not the 12 shapes of the design); ASCII; md5 of the fingerprint is not modelled (equal fingerprints give equal md5; different fingerprints are assumed not to collide); '/*!' and '/*+' are not comments; known finding C36-comment-glued-to-word")
 
+CLAIMED['C31'] = ("every sequence of k<=4 prepare / commit / delete operations over two namespaces on the real Manager (ReloadNamespacePrepare/Commit, DeleteNamespace, GetNamespace, user managers): after every operation the live configuration version and the credentials of every namespace equal the specification (last committed, deleted stays deleted)",
+    "bounded enumeration of operation sequences by the engine's choice points (the state is discrete: almost no solver queries are involved, which is what the evidence shows); NewNamespace/Close are light fakes (mockey natively); administrators are sequential, the reader-sees-one-generation clause (switchIndex versus the two arrays under concurrency) is not covered; the shared standby generation is known finding C31-shared-standby-generation")
+
 NA_REASON = "check not built yet (work in progress; see DESIGN.md section 3 for the planned harness)"
 NA = {}
 
